@@ -16,14 +16,22 @@ CFG = dict(
          "text model, and the round trip checked directly when the format can express the instant; mutated date-time "
          "strings through the rule list (exact) and arbitrary strings (totality). Time::parse: valid HH:MM:SS[.f] strings "
          "(exact) and arbitrary strings (totality). Non-trivial = distinct non-empty inputs.",
-    theorem_hint="Props/C18.v: C18_total, C18_wellformed, C18_datetime_roundtrip_partial, C18_datetime_roundtrip_listed_partial",
-    level_text="Proof: 6 theorems of Props/C18.v (axiom-free) about the Gallina model of the repaired TimeDelta::parse scanner "
+    theorem_hint="Props/C18.v: C18_total, C18_wellformed, C18_parse_accepts_grammar, C18_parse_rejects, C18_parse_whitespace_*, C18_datetime_roundtrip, C18_earlier_rule_unambiguous, C18_datetime_roundtrip_listed_all_years",
+    level_text="Proof: 17 theorems of Props/C18.v (axiom-free) about the Gallina model of the repaired TimeDelta::parse scanner "
                "(for every string: no panic, fuel never exhausted; for every well-formed term list whose numbers, products and "
-               "running sums stay in range: Ok of the sums) and about the date-time text model (calendar inverse law for every day "
-               "number; default format rendered then parsed, explicitly and through the rule list, returns the instant; each of "
-               "the 11 listed formats parsed back explicitly returns every instant it can express; years 0000..9999, 4 units). "
-               "The round trip through the rule list for the 10 non-default formats and years outside 0..9999 are "
-               "correspondence-only (C18_datetime_roundtrip_full_statement is a Definition). The models are tied to the code by "
+               "running sums stay in range: Ok of the sums; conversely every ACCEPTED string is a sequence of well-formed terms "
+               "plus a degenerate tail (empty, or one character followed by digits only) and the value returned is the sum of "
+               "those terms, hence every string outside that language is Err; the empty string and a lone tail are the zero "
+               "duration; a bad first character is rejected; white space is in no term, so it is rejected everywhere except as "
+               "the head of the tail) and about the date-time text model (calendar inverse law for every day number; the FULL "
+               "round-trip statement C18_datetime_roundtrip: all four units, each of the 11 listed formats, every instant chrono "
+               "represents and the format can express, years -262143..262142 with the signed rendering +12345 / -0001 (0000..9999 "
+               "for the four formats whose %Y is followed directly by digits), rendered, parsed back with the format given "
+               "explicitly AND through the rule list of DateTime::parse(s, None): for each of the 55 rule pairs j < k the earlier "
+               "rule rejects the text of format k (53 pairs) or reads the same instant (the pairs (4,7), (6,8)), proved through a "
+               "sound abstraction of the parser to character classes whose finite check (55 pairs x 7 year shapes) is a "
+               "vm_compute with the bound in the statement). Nothing is partial any more (the two theorems still named "
+               "_partial are the years-0000..9999 lemmas the full theorem was built from). The models are tied to the code by "
                "the differential run described in `rule`.",
     level_note="Trusted: Coq kernel; the hand-written scanner model (character positions instead of byte offsets); the models of "
                "i64::from_str, chrono Duration range checks, chrono format/parse_from_str for %Y %m %d %H %M %S %f, literals and "
